@@ -224,18 +224,26 @@ def varStartIndex (infos : List (TokInfo F)) : Nat :=
   | some i => i + 2
   | none => 0
 
+/-- a candidate of one substitution round: (start index, variable key, number of name tokens) -/
+abbrev Cand := Nat × String × Nat
+
+/-- the selection of `update_token_variables`: a candidate replaces the current best when it
+    starts at the same index and is longer, or starts earlier -/
+def better (best : Cand) (c : Cand) : Bool := (c.1 = best.1 && best.2.2 < c.2.2) || c.1 < best.1
+
+def pickBest : Option Cand → List Cand → Option Cand
+  | best, [] => best
+  | none, c :: cs => pickBest (some c) cs
+  | some b, c :: cs => pickBest (if better b c then some c else some b) cs
+
+/-- the leftmost occurrence of every variable name in `tail`, in key order -/
+def candidates (vs : Vars F) (tail : List (TokInfo F)) : List Cand :=
+  vs.filterMap fun kv => (findLocation tail kv.2.toks).map fun i => (i, kv.1, kv.2.toks.length)
+
 /-- one substitution step of `update_token_variables`: closest, then longest variable -/
 def varStep (vs : Vars F) (startIdx : Nat) (infos : List (TokInfo F)) : Option (List (TokInfo F)) :=
   let tail := infos.drop startIdx
-  let best : Option (Nat × String × Nat) := vs.foldl (fun best kv =>
-    match findLocation tail kv.2.toks with
-    | none => best
-    | some idx =>
-      match best with
-      | none => some (idx, kv.1, kv.2.toks.length)
-      | some (bidx, _, bsize) =>
-        if (idx = bidx && bsize < kv.2.toks.length) || idx < bidx then some (idx, kv.1, kv.2.toks.length) else best) none
-  match best with
+  match pickBest none (candidates vs tail) with
   | none => none
   | some (idx, name, size) =>
     let rs := startIdx + idx
@@ -273,37 +281,34 @@ def tokToString : Tok F → String
 /-- the textual key `VariableInfo::to_string` -/
 def varKey (toks : List (Tok F)) : String := " ".intercalate (toks.map fun t => (tokToString t).toLower)
 
+/-- the variable an assignment line binds: an existing one (looked up by key) or a new one
+    registered at parse time with no value yet -/
+def registerVar (vs : Vars F) (nameRange : List (Tok F)) (expr : Ast F) : Ast F × Vars F :=
+  match vs.get? (varKey nameRange) with
+  | some _ => (.assignment (varKey nameRange) expr, vs)
+  | none => (.assignment (varKey nameRange) expr, vs.insert (varKey nameRange) { toks := nameRange, data := .none })
+
+/-- name tokens and expression tokens of an assignment line: the scan for `=` starts at the
+    second token (the first token always belongs to the name); `end = index - 1` -/
+def assignParts (toks : List (Tok F)) : List (Tok F) × List (Tok F) :=
+  let k := match (toks.drop 1).findIdx? (fun t => t.isOpOf .assign) with
+    | some i => i + 1          -- index of that `=`
+    | none => toks.length      -- no `=` behind the first token: the scan runs off the end
+  (toks.take (if k < toks.length then k else toks.length - 1), toks.drop (k + 1))
+
 /-- `AssignmentParser::parse` + `AddSubtractParser::parse` (`SyntaxParser::parse`), returning the
     AST and the session variables (a new variable is registered at parse time). -/
 def parseLine (vs : Vars F) (toks : List (Tok F)) : Except Err (Ast F × Vars F) :=
-  match toks.findIdx? (fun t => t.isOpOf .assign) with
-  | some _ =>
-    -- variable_name: first token, then every non-operator token up to the first `=` at index ≥ 1
-    match toks with
-    | [] => .error .other
-    | first :: rest =>
-      let k := match rest.findIdx? (fun t => t.isOpOf .assign) with
-        | some i => i + 1      -- index of that `=` in toks
-        | none => toks.length  -- no `=` after the first token: the scan runs off the end
-      let exprToks := toks.drop (k + 1)
-      -- end = index - 1 where index is one past the `=` (or one past the end)
-      let nameRange := toks.take (if k < toks.length then k else toks.length - 1)
-      let lookupKey := varKey nameRange
-      let _ := first
-      match parseExpr exprToks with
+  if toks.any (fun t => t.isOpOf .assign) then
+    match parseExpr (assignParts toks).2 with
+    | .error e => .error e
+    | .ok (.none, rest') =>
+      -- map_parser goes on with AddSubtractParser at the current index
+      match parseExpr rest' with
       | .error e => .error e
-      | .ok (.none, rest') =>
-        -- map_parser goes on with AddSubtractParser at the current index
-        match parseExpr rest' with
-        | .error e => .error e
-        | .ok (ast, _) => .ok (ast, vs)
-      | .ok (expr, _) =>
-        match vs.get? lookupKey with
-        | some _ => .ok (.assignment lookupKey expr, vs)
-        | none =>
-          let key := varKey nameRange
-          .ok (.assignment key expr, vs.insert key { toks := nameRange, data := .none })
-  | none =>
+      | .ok (ast, _) => .ok (ast, vs)
+    | .ok (expr, _) => .ok (registerVar vs (assignParts toks).1 expr)
+  else
     match parseExpr toks with
     | .error e => .error e
     | .ok (ast, _) => .ok (ast, vs)
@@ -314,21 +319,29 @@ inductive LineRes (F : Type)
   | err (e : Err)
   deriving Repr
 
+/-- the three rewrite layers R1–R3: variables, units, rules -/
+def rewriteInfos (c : Cfg F) (lang : String) (now : Now) (vs : Vars F) (infos : List (TokInfo F)) :
+    List (TokInfo F) :=
+  let infos := updateTokenVariables vs infos
+  let infos := unitLoop c vs (infos.length + 1) infos
+  let rules := match c.lang? lang with | some l => l.rules | none => []
+  ruleLoop c lang now vs rules (infos.length + 1) infos
+
+/-- post-processing, parser and interpreter on the rewritten token infos -/
+def evalTokens (c : Cfg F) (vs : Vars F) (infos : List (TokInfo F)) :
+    Vars F × Option (LineRes F × List (TokInfo F) × List (Tok F)) :=
+  if infos.isEmpty then (vs, none) else
+  match parseLine vs (postProcess infos) with
+  | .error e => (vs, some (.err e, infos, postProcess infos))
+  | .ok (ast, vs') =>
+    match exec c vs' ast with
+    | .error e => (vs', some (.err e, infos, postProcess infos))
+    | .ok (v, vs'') => (vs'', some (.ok v, infos, postProcess infos))
+
 /-- `execute_text` from the lexed token infos (after the language, regex and alias tokenizers)
     onward.  Returns `none` when the tokenizer yields no token info at all. -/
 def evalInfos (c : Cfg F) (lang : String) (now : Now) (vs : Vars F) (infos : List (TokInfo F)) :
     Vars F × Option (LineRes F × List (TokInfo F) × List (Tok F)) :=
-  let infos := updateTokenVariables vs infos
-  let infos := unitLoop c vs (infos.length + 1) infos
-  let rules := match c.lang? lang with | some l => l.rules | none => []
-  let infos := ruleLoop c lang now vs rules (infos.length + 1) infos
-  let toks := postProcess infos
-  if infos.isEmpty then (vs, none) else
-  match parseLine vs toks with
-  | .error e => (vs, some (.err e, infos, toks))
-  | .ok (ast, vs') =>
-    match exec c vs' ast with
-    | .error e => (vs', some (.err e, infos, toks))
-    | .ok (v, vs'') => (vs'', some (.ok v, infos, toks))
+  evalTokens c vs (rewriteInfos c lang now vs infos)
 
 end SC
